@@ -43,6 +43,17 @@ mod ops_serde;
 #[cfg(cfg_worker)]
 #[path = "../ops_text.rs"]
 mod ops_text;
+// ops modules the other groups gained in rounds 4/5 (same chains as `exec_<group>`)
+#[cfg(cfg_worker)]
+#[path = "../ops_int_prim.rs"]
+mod ops_int_prim;
+// (ops_norm.rs of the bits group is written for 64-bit words only — `Word` literals — and is not replayed)
+#[cfg(cfg_worker)]
+#[path = "../ops_simplify2.rs"]
+mod ops_simplify2;
+#[cfg(cfg_worker)]
+#[path = "../ops_ratio_pred.rs"]
+mod ops_ratio_pred;
 
 use std::collections::BTreeMap;
 use std::io::{BufRead, BufReader, Write};
@@ -116,14 +127,14 @@ mod ops_log {
 fn grouped(op: &str, args: &[&str]) -> Option<verif_harness::util::Res> {
     let (group, inner) = op.split_once('/')?;
     let chain: &[verif_harness::Dispatch] = match group {
-        "int" => &[ops_int::dispatch, ops_bits::dispatch],
+        "int" => &[ops_int::dispatch, ops_bits::dispatch, ops_int_prim::dispatch],
         "div" => &[ops_div::dispatch, ops_int::dispatch],
         "bits" => &[ops_bits::dispatch, ops_cmp::dispatch],
         "text" => &[ops_text::dispatch, ops_text::dispatch_float],
         "conv" => &[ops_conv::dispatch],
         "nt" => &[ops_nt::dispatch],
         "float" => &[ops_float::dispatch],
-        "ratio" => &[ops_ratio::dispatch],
+        "ratio" => &[ops_simplify2::dispatch, ops_ratio::dispatch, ops_ratio_pred::dispatch],
         "cross" => &[ops_cross::dispatch],
         _ => return Some(Err(format!("bad-op unknown-group:{}", group))),
     };
